@@ -104,7 +104,12 @@ def _obj_to_key(obj: dict, fields: Sequence[int | str]) -> str:
 def _list_to_object(
     obj_list: Sequence[dict], key_fields: Sequence[int | str]
 ) -> dict[str, dict] | None:
-    if not obj_list:
+    # Only a list of objects is a keyed collection. Anything else (a scalar, a
+    # mapping, a list with non-object members) compares as a type difference
+    # instead of raising; an empty list is an empty keyed collection.
+    if not isinstance(obj_list, (list, tuple)) or not all(
+        isinstance(obj, dict) for obj in obj_list
+    ):
         return None
 
     return {_obj_to_key(obj, key_fields): obj for obj in obj_list}
